@@ -42,6 +42,15 @@ RSD = {'test': 'TestVerifReset', 'comp': 'rs', 'quick': {'VERIF_N': 64}, 'thorou
        'seeds': {'quick': 1, 'thorough': 8}, 'corpus_glob': 'rs_*.ops'}
 E2E_API = e2e('api', 'TestVerifE2EAPI')
 E2E_TD = e2e('teardown', 'TestVerifE2ETeardown', nq=400, nt=2000)
+# concurrent API storms inside the bubble run on ONE P (cooperative scheduling: reproducible from the seed; with several Ps
+# go1.26 synctest bubbles occasionally stall for tens of seconds with a runnable goroutine that no P picks up). Real
+# parallelism is left to the native race-detector runs below.
+E2E_ST = e2e('storm', 'TestVerifE2EStorm', nq=250, nt=1500)
+# the storm / teardown programs outside the bubble under the race detector (thorough tier; bounded real time)
+RACE_ST = {'test': 'TestVerifRaceStorm', 'comp': 'e2e', 'mode': 'storm', 'scenario': True, 'race': True, 'tiers': ['thorough'],
+           'thorough': {'VERIF_N': 400, 'VERIF_RACE_BUDGET_S': 150}, 'seeds': {'thorough': 2}}
+RACE_TD = {'test': 'TestVerifRaceTeardown', 'comp': 'e2e', 'mode': 'teardown', 'scenario': True, 'race': True, 'tiers': ['thorough'],
+           'thorough': {'VERIF_N': 400, 'VERIF_RACE_BUDGET_S': 150}, 'seeds': {'thorough': 2}}
 
 E2E_RULE = ('one case = one seeded scenario (options x initial TSNs x streams/policies x message sizes x per-packet fault schedule x heal time) run on a real '
             'association pair under testing/synctest virtual time; distinct by SHA-1 of its full API+wire log; non-trivial = at least 3 distinct event kinds and 5 events')
@@ -128,7 +137,18 @@ PROPS = {
         'run theorems start from any state satisfying WInv / GInv (initial state of every configuration with MTU < 2^30: C18_invariant_reachable)',
         'C18_parked_write_rollback: equality up to the two ghost id allocators nextWid / nextMsg',
         'observation (not a C18 clause): while a write is parked bufferedAmount includes its bytes, and the roll-back subtracts them without onBufferReleased - a low-threshold crossing can be skipped']},
-    'C09': {'jobs': [E2E_TD, E2E_SD, E2E_HS], 'rule': E2E_RULE},
+    'C09': {'jobs': [E2E_TD, E2E_SD, E2E_HS, E2E_ST], 'rule': E2E_RULE, 'assumptions': [
+        'theorems are about the hand-written transition system Model/Teardown.lean; its choreography is read off translator facts on every run (C09_choreography_matches_code)',
+        'sync.Mutex / sync.Cond / channel / sync.Once semantics as specified by Go; one constructor call per association; API calls only after it returned; '
+        'completeHandshake attempted at most once; stream identifiers not reused after a reset',
+        '"promptly" = without further help from the environment; wall-clock bounds are not modelled',
+        'real goroutine interleavings are sampled by the teardown scenarios (every goroutine of the package must be gone when the synctest bubble ends)']},
+    'C20': {'jobs': [E2E_ST, E2E_TD, RACE_ST, RACE_TD], 'rule': E2E_RULE, 'assumptions': [
+        'lock-order, callback, entry-point and blocking-site theorems are decided on facts the translator derives from the source on every run '
+        '(syntactic, intra-package; mutexes identified by receiver type and field; interface calls resolved by method set)',
+        'data-race freedom is NOT covered by any theorem (it cannot be expressed by an executable Lean model): the race-detector runs of the thorough tier are supporting evidence only',
+        'goroutine interleavings are sampled (storm scenarios under testing/synctest with several Ps; native runs under -race), not enumerated',
+        'the linearisation theorem is about ONE mutex; the per-stream lock and the timer mutexes guard state of their own']},
     'C19': {'jobs': [RTO, TIMER, ARCV], 'assumptions': [
         'float64 arithmetic of rtoManager / calculateNextTimeout is proved over Rat; the Float instance is compared with the Go code bit for bit on sampled sequences',
         'timer automaton theorems assume fewer than 255 fired callbacks wait for the timer mutex at once (pending is a uint8; witness C19_pending_wrap_witness, known finding K19-pending-uint8)',
